@@ -1,7 +1,8 @@
 (* C08 -- a Gallina MODEL OF THE REAL exhaustiveness algorithm of the type checker
    (src/check.rs: check_exhaustiveness, enum Ctor, specialize, split_unsigned_range,
    split_signed_range, split_ctor, usefulness): Maranget-style usefulness with integer-range
-   splitting, the shortcut for columns that hold only identifier patterns, and the
+   splitting, the early exit for a row of identifier patterns, the shortcut for columns
+   that hold only identifier patterns, and the
    reconstruction of witness pattern stacks.  Definitions only (proofs: UsefulProofs.v).
 
    Differences of representation:
@@ -234,6 +235,10 @@ Fixpoint useful (fuel : nat) (env : tyenv) (ts : list ty) (rows : list (list pat
           | _, [], _ => Some []
           | _ :: _, _ :: _, [] => Some []        (* no column type: not a call the checker makes *)
           | _ :: _, qh :: qt, t :: trest =>
+              if existsb (forallb is_var) rows then
+                (* a row of identifiers matches every value: nothing is missing *)
+                Some []
+              else
               if is_var qh && forallb (fun r => match r with p :: _ => is_var p | [] => false end) rows
               then
                 (* no row looks at this column *)
